@@ -1403,3 +1403,146 @@ func c11positions(c *Ctx, r *Result) {
 	}
 	r.Floor("C11.5", 8)
 }
+
+// ---- additional agreement found by the third round of seeded changes ----
+
+func init() {
+	reg := registry["C11"]
+	reg.Meta.Rules["C11.6"] = "chunk dimensions: the width the layout decoder reads under each superblock version the library writes (0, 2, 3) is the width the encoder writes"
+	reg.Rules = append(reg.Rules, func(c *Ctx, r *Result) { c11chunkDimWidth(c, r, "C11.6") })
+}
+
+// evalUnderParam: the constant a one-parameter function returns when its parameter has value V (branches on comparisons of the
+// parameter with constants are resolved; the function must then reach exactly one constant return).
+func evalUnderParam(fn *ssa.Function, V int64) (int64, bool) {
+	if len(fn.Params) != 1 || len(fn.Blocks) == 0 {
+		return 0, false
+	}
+	p := fn.Params[0]
+	b := fn.Blocks[0]
+	for steps := 0; steps < 64; steps++ {
+		last := b.Instrs[len(b.Instrs)-1]
+		switch x := last.(type) {
+		case *ssa.Return:
+			return constInt(x.Results[0])
+		case *ssa.Jump:
+			b = b.Succs[0]
+		case *ssa.If:
+			cmp, ok := x.Cond.(*ssa.BinOp)
+			if !ok || !isCmp(cmp.Op) {
+				return 0, false
+			}
+			lhs := cmp.X
+			for {
+				if cv, ok := lhs.(*ssa.Convert); ok {
+					lhs = cv.X
+					continue
+				}
+				break
+			}
+			k, isK := constInt(cmp.Y)
+			if lhs != ssa.Value(p) || !isK {
+				return 0, false
+			}
+			if evalCmp(cmp.Op, V, k) {
+				b = b.Succs[0]
+			} else {
+				b = b.Succs[1]
+			}
+		default:
+			return 0, false
+		}
+	}
+	return 0, false
+}
+
+func c11chunkDimWidth(c *Ctx, r *Result, rule string) {
+	enc := c.Fn(r, "core.encodeChunkedLayout")
+	dec := c.Fn(r, "core.parseLayoutV3")
+	ks := c.Fn(r, "core.determineChunkKeySize")
+	if enc == nil || dec == nil || ks == nil {
+		return
+	}
+	// encoder: width of the store that writes an element of chunkDims
+	encW := int64(0)
+	var at ssa.Instruction
+	for _, w := range c.writeSites(enc) {
+		if sourceName(w.Val) != "chunkDims[]" {
+			continue
+		}
+		if call, ok := w.In.(*ssa.Call); ok {
+			n := c.calleeName(call)
+			switch {
+			case strings.HasSuffix(n, "PutUint32"):
+				encW = 4
+			case strings.HasSuffix(n, "PutUint64"):
+				encW = 8
+			case strings.HasSuffix(n, "PutUint16"):
+				encW = 2
+			}
+			at = w.In
+		}
+	}
+	if encW == 0 {
+		r.Errorf(rule+": store of chunk dimensions in encodeChunkedLayout not recognised")
+		return
+	}
+	// decoder: the arm taken for ChunkKeySize == 8 reads UintN of which width; the other arm likewise
+	widthFor := map[bool]int64{}
+	for _, b := range dec.Blocks {
+		ifi, ok := b.Instrs[len(b.Instrs)-1].(*ssa.If)
+		if !ok {
+			continue
+		}
+		cmp, ok := ifi.Cond.(*ssa.BinOp)
+		if !ok || cmp.Op != token.EQL {
+			continue
+		}
+		k, isK := constInt(cmp.Y)
+		if !isK || k != 8 {
+			continue
+		}
+		reads := false
+		for f := range fieldsReadBy(cmp.X) {
+			if strings.HasSuffix(f, ".ChunkKeySize") {
+				reads = true
+			}
+		}
+		if !reads {
+			continue
+		}
+		for i, arm := range b.Succs {
+			for _, blk := range dec.Blocks {
+				if !edgeDominates(b, arm, blk) {
+					continue
+				}
+				for _, in := range blk.Instrs {
+					if call, ok := in.(*ssa.Call); ok {
+						n := c.calleeName(call)
+						if strings.HasSuffix(n, ".Uint64") {
+							widthFor[i == 0] = 8
+						} else if strings.HasSuffix(n, ".Uint32") {
+							widthFor[i == 0] = 4
+						}
+					}
+				}
+			}
+		}
+	}
+	if len(widthFor) != 2 {
+		r.Errorf(rule+": the ChunkKeySize == 8 branch of parseLayoutV3 was not recognised")
+		return
+	}
+	// ParseDataLayoutMessage must take the key size from determineChunkKeySize(sb.Version)
+	for _, V := range []int64{0, 2, 3} {
+		key, ok := evalUnderParam(ks, V)
+		cons := "core.encodeChunkedLayout~core.parseLayoutV3#chunk-dimension-width-superblock-v" + itoa64(V)
+		if !ok {
+			r.Undec(rule, cons, c.Pos(ks.Pos()), "determineChunkKeySize could not be evaluated for this version")
+			continue
+		}
+		decW := widthFor[key == 8]
+		r.Check(decW == encW, rule, cons, c.InstrPos(at), "encoder writes "+itoa64(encW)+"-byte chunk dimensions; under superblock version "+itoa64(V)+" the decoder selects key size "+itoa64(key)+" and reads "+itoa64(decW)+"-byte dimensions")
+	}
+	r.Floor(rule, 3)
+}
